@@ -605,3 +605,267 @@ def gen_cascade_program(rng, isa=None):
         base.update(it)
         out.append(base)
     return {"rules": isa["rules"], "items": out}
+
+
+# ---------------------------------------------------------------------------
+# C15: symbol trees and references
+
+def _item(**kw):
+    base = {"k": "", "lvl": 0, "name": "", "e": {"k": "none"}, "toks": [], "w": -1, "es": [], "n": 0}
+    base.update(kw)
+    return base
+
+
+def gen_symbol_program(rng, maxdepth=3, allow_errors=True):
+    """labels and constants at levels 0..maxdepth with repeated local names under
+    different parents; after every declaration a marker byte so that every label
+    has its own address; references from every position at every dot-level and
+    dotted path, each emitted as `#d16 <ref>`."""
+    names = ["a", "b", "c"]
+    items = []
+    ctx = []
+    decls = []              # full names declared so far (generator bookkeeping to aim references, not an oracle)
+    ndecl = rng.randrange(3, 9)
+    marker = 1
+    pending_consts = []
+    for i in range(ndecl):
+        lvl = min(len(ctx), rng.choice([0, 0, 1, 1, 2, 2, 3]))
+        if allow_errors and rng.random() < 0.03:
+            lvl = len(ctx) + 1                     # skips a nesting level
+        name = rng.choice(names)
+        if lvl == 0 and rng.random() < 0.7:
+            name = rng.choice(["g%d" % i, name])
+        # mostly avoid declaring the same name twice in one scope (a duplicate is an error)
+        tries = 0
+        while ".".join(ctx[:lvl] + [name]) in decls and tries < 5 and rng.random() < 0.95:
+            name = rng.choice(names + ["d", "e"])
+            tries += 1
+        is_const = rng.random() < 0.35
+        if is_const:
+            c = rng.random()
+            if c < 0.4 or not decls:
+                e = {"k": "num", "text": list(str(rng.randrange(0, 200)))}
+            elif c < 0.95:
+                tgt = rng.choice(decls)
+                e = {"k": "bin", "op": "add", "l": {"k": "var", "lvl": 0, "path": tgt.split(".")},
+                     "r": {"k": "num", "text": list(str(rng.randrange(0, 4)))}}
+            else:
+                e = {"k": "var", "lvl": rng.randrange(0, 3), "path": [rng.choice(names)]}
+            items.append(_item(k="const", lvl=lvl, name=name, e=e))
+        else:
+            items.append(_item(k="label", lvl=lvl, name=name))
+        ctx = ctx[:lvl] + [name]
+        decls.append(".".join(ctx))
+        items.append(_item(k="data", w=8, es=[{"k": "num", "text": list(str(marker))}]))
+        marker += 1
+        # probes from this position
+        for _ in range(rng.randrange(0, 3)):
+            c = rng.random()
+            if c < 0.93 and decls:
+                full = rng.choice(decls).split(".")
+                # spell it relative to the current context when possible
+                k = 0
+                while k < len(ctx) and k < len(full) - 1 and ctx[k] == full[k] and rng.random() < 0.7:
+                    k += 1
+                ref = {"k": "var", "lvl": k, "path": full[k:]}
+            else:
+                ref = {"k": "var", "lvl": rng.randrange(0, 4), "path": [rng.choice(names + ["g0", "g1"]) for _ in range(rng.choice([1, 1, 2]))]}
+            items.append(_item(k="data", w=16, es=[ref]))
+    # forward references from the top of the file
+    head = []
+    for _ in range(rng.randrange(0, 3)):
+        if decls:
+            head.append(_item(k="data", w=16, es=[{"k": "var", "lvl": 0, "path": rng.choice(decls).split(".")}]))
+    return {"rules": [], "items": head + items}
+
+
+def move_free_constant(rng, P):
+    """C15: a global constant that depends on no address and has no nested
+    children is moved to the start or the end of the file.  Returns the moved
+    program or None when there is nothing movable.  (The test is syntactic:
+    number literals only.)"""
+    items = P["items"]
+    cands = []
+    for i, it in enumerate(items):
+        if it["k"] == "const" and it["lvl"] == 0 and it["e"].get("k") == "num":
+            nxt = next((x for x in items[i + 1:] if x["k"] in ("label", "const")), None)
+            if nxt is None or nxt["lvl"] == 0:
+                cands.append(i)
+    if not cands:
+        return None
+    i = rng.choice(cands)
+    Q = copy.deepcopy(P)
+    it = Q["items"].pop(i)
+    if rng.random() < 0.5:
+        Q["items"].append(it)
+    else:
+        Q["items"].insert(0, it)
+    return Q
+
+
+# ---------------------------------------------------------------------------
+# C16: condition trees and command-line defines
+
+def gen_cond_program(rng):
+    """-> (abstract program with #if trees and `defines`, argv defines as strings)"""
+    BOOLS, INTS = ["FLAG", "DEBUG"], ["X", "Y", "MODE"]
+    marker = [1]
+
+    def mark():
+        marker[0] += 1
+        return _item(k="data", w=8, es=[{"k": "num", "text": list(str(marker[0] % 250))}])
+
+    # where each vocabulary constant is declared: before / after the conditions, inside an arm, or nowhere
+    place = {}
+    for n in BOOLS + INTS:
+        c = rng.random()
+        place[n] = "before" if c < 0.45 else "after" if c < 0.85 else "inside" if c < 0.95 else "nowhere"
+    inside_left = [n for n in place if place[n] == "inside"]
+    fresh = []
+
+    def value_expr(name):
+        if name in BOOLS:
+            c = rng.random()
+            if c < 0.7:
+                return {"k": "bool", "b": rng.random() < 0.5}
+            other = rng.choice(INTS)
+            return {"k": "bin", "op": rng.choice(["eq", "lt"]), "l": {"k": "var", "lvl": 0, "path": [other]},
+                    "r": {"k": "num", "text": list(str(rng.choice([0, 1, 2])))}}
+        c = rng.random()
+        if c < 0.7:
+            return {"k": "num", "text": list(str(rng.choice([0, 1, 2, 5, 16])))}
+        other = rng.choice([x for x in INTS if x != name])
+        return {"k": "bin", "op": "add", "l": {"k": "var", "lvl": 0, "path": [other]}, "r": {"k": "num", "text": ["1"]}}
+
+    def cond(depth=0):
+        c = rng.random()
+        if c < 0.3:
+            return {"k": "var", "lvl": 0, "path": [rng.choice(BOOLS + fresh[-1:])]}
+        if c < 0.4:
+            return {"k": "un", "op": "not", "e": {"k": "var", "lvl": 0, "path": [rng.choice(BOOLS)]}}
+        if c < 0.8:
+            return {"k": "bin", "op": rng.choice(["eq", "ne", "lt", "ge"]), "l": {"k": "var", "lvl": 0, "path": [rng.choice(INTS)]},
+                    "r": {"k": "num", "text": list(str(rng.choice([0, 1, 2, 16])))}}
+        if c < 0.9 and depth < 1:
+            return {"k": "bin", "op": rng.choice(["land", "lor"]), "l": cond(depth + 1), "r": cond(depth + 1)}
+        if c < 0.94:
+            return {"k": "bool", "b": rng.random() < 0.5}
+        if c < 0.97:
+            return {"k": "var", "lvl": 0, "path": [rng.choice(INTS)]}     # not a boolean
+        return {"k": "var", "lvl": 0, "path": ["somelabel"]}             # an address: cannot be decided
+
+    def block(depth):
+        items = []
+        for _ in range(rng.randrange(0, 4)):
+            c = rng.random()
+            if c < 0.5:
+                items.append(mark())
+            elif c < 0.62:
+                nm = "Z%d" % marker[0]
+                marker[0] += 1
+                fresh.append(nm)
+                items.append(_item(k="const", lvl=0, name=nm, e={"k": "bool", "b": rng.random() < 0.5}))
+            elif c < 0.7 and inside_left:
+                nm = inside_left.pop()
+                items.append(_item(k="const", lvl=0, name=nm, e=value_expr(nm)))
+            elif c < 0.78:
+                items.append(_item(k="label", lvl=0, name="L%d" % marker[0]))
+                items.append(mark())
+            elif depth < 2:
+                items.append(if_item(depth + 1))
+            else:
+                items.append(mark())
+        return items
+
+    def if_item(depth):
+        it = _item(k="if", e=cond())
+        it["then"] = block(depth)
+        c = rng.random()
+        if c < 0.35:
+            it["else"] = []
+            it["haselse"] = False
+        elif c < 0.7:
+            it["else"] = block(depth)
+            it["haselse"] = True
+        else:
+            it["else"] = [if_item(depth)]          # #elif
+            it["haselse"] = True
+            it["elif"] = True
+        return it
+
+    items = []
+    for n in BOOLS + INTS:
+        if place[n] == "before":
+            items.append(_item(k="const", lvl=0, name=n, e=value_expr(n)))
+    items.append(_item(k="label", lvl=0, name="somelabel"))
+    items.append(mark())
+    for _ in range(rng.randrange(1, 4)):
+        items.append(if_item(0))
+        if rng.random() < 0.4:
+            items.append(mark())
+    for n in BOOLS + INTS:
+        if place[n] == "after":
+            items.append(_item(k="const", lvl=0, name=n, e=value_expr(n)))
+    hier = rng.random() < 0.3
+    if hier:
+        items.append(_item(k="label", lvl=0, name="lab"))
+        items.append(_item(k="const", lvl=1, name="N", e={"k": "num", "text": ["3"]}))
+        items.append(_item(k="data", w=8, es=[{"k": "var", "lvl": 0, "path": ["lab", "N"]}]))
+    # defines
+    defines, argv = [], []
+    for _ in range(rng.choice([0, 0, 1, 1, 2, 3])):
+        name = rng.choice(BOOLS + INTS + (["lab.N"] if hier else []) + (["NOSUCH"] if rng.random() < 0.15 else []))
+        if name in [d["name"] for d in defines]:
+            continue
+        want_bool = (name in BOOLS) != (rng.random() < 0.1)
+        if want_bool:
+            if rng.random() < 0.35:
+                argv.append("-d%s" % name)
+                v = {"t": "bool", "v": 1}
+            else:
+                b = rng.random() < 0.5
+                argv.append("-d%s=%s" % (name, "true" if b else "false"))
+                v = {"t": "bool", "v": 1 if b else 0}
+        else:
+            n = rng.choice([0, 1, -1, 16, 2, 5])
+            argv.append("-d%s=%s" % (name, rng.choice([str(n), hex(n) if n >= 0 else str(n)])))
+            v = {"t": "int", "v": n}
+        defines.append({"name": name, "v": {"t": v["t"], "v": v["v"], "s": -1, "cps": [], "enc": ""}})
+
+    def norm(items):
+        out = []
+        for it in items:
+            b = _item()
+            b.update({"then": [], "else": [], "haselse": False, "elif": False})
+            b.update(it)
+            b["then"] = norm(b["then"])
+            b["else"] = norm(b["else"])
+            out.append(b)
+        return out
+
+    return {"rules": [], "items": norm(items), "defines": defines}, argv
+
+
+def render_items(items, indent=""):
+    out = []
+    for it in items:
+        k = it["k"]
+        if k == "if":
+            out.append(render_if(it, indent, "#if"))
+        elif k == "label":
+            out.append("%s%s%s:\n" % (indent, "." * it["lvl"], it["name"]))
+        elif k == "const":
+            out.append("%s%s%s = %s\n" % (indent, "." * it["lvl"], it["name"], genexpr.render(it["e"])))
+        elif k == "data":
+            out.append("%s#d%s %s\n" % (indent, "" if it["w"] < 0 else str(it["w"]), ", ".join(genexpr.render(e) for e in it["es"])))
+    return "".join(out)
+
+
+def render_if(it, indent, kw):
+    s = "%s%s %s\n%s{\n%s%s}\n" % (indent, kw, genexpr.render(it["e"]), indent, render_items(it["then"], indent + "    "), indent)
+    if it.get("haselse"):
+        if it.get("elif") and len(it["else"]) == 1 and it["else"][0]["k"] == "if":
+            s += render_if(it["else"][0], indent, "#elif")
+        else:
+            s += "%s#else\n%s{\n%s%s}\n" % (indent, indent, render_items(it["else"], indent + "    "), indent)
+    return s
